@@ -325,6 +325,8 @@ func c37Divisions(c *Ctx, fns []*ssa.Function, reach map[*ssa.Function]string) {
 		c.Undecided("C37c: only %d division sites found under block processing, expected >= 30 (frozen count)", n)
 	}
 
+	c37TypeAsserts(c, fns, reach)
+
 	c.Rule("C37d the audited belief about the downtime EpochDuration parameter is enforced where parameters are set: validateDowntimeDuration returns nil only past the false outcome of `value <= 0`, and both parameters of the downtime module are registered with it")
 	if v := c.Fn("x/downtime/v1.validateDowntimeDuration"); v != nil {
 		ok := true
@@ -375,3 +377,53 @@ func c37Divisions(c *Ctx, fns []*ssa.Function, reach map[*ssa.Function]string) {
 		}
 	}
 }
+
+// c37TypeAsserts: single-result type assertions x.(T) panic when the dynamic type differs.
+func c37TypeAsserts(c *Ctx, fns []*ssa.Function, reach map[*ssa.Function]string) {
+	c.Rule("C37e type assertions: every single-result type assertion x.(T) reachable from block processing (the form that panics on a mismatch) is listed in the audited table with the reason the dynamic type is always T; comma-ok assertions and type switches do not panic")
+	n := 0
+	for _, f := range fns {
+		k := 0
+		for _, b := range f.Blocks {
+			if b == f.Recover {
+				continue
+			}
+			for _, in := range b.Instrs {
+				ta, ok := in.(*ssa.TypeAssert)
+				if !ok || ta.CommaOk || !ta.Pos().IsValid() {
+					continue
+				}
+				n++
+				k++
+				key := ir.FuncName(f) + "/" + ir.TypeName(ta.AssertedType)
+				if k > 1 {
+					key += "#" + itoa(k)
+				}
+				if why, ok := c37AssertAudited[key]; ok {
+					c.Audit("C37e/"+key, c.P.InstrPos(in), why)
+				} else {
+					c.Fail("C37e/"+key, c.P.InstrPos(in), "single-result type assertion of "+trunc(ir.Desc(ta.X), 100)+" reachable from block processing ("+reach[f]+"): a value of another dynamic type panics and halts the chain")
+				}
+			}
+		}
+	}
+	// expected count under block processing is zero today; make sure the recogniser itself
+	// is alive by counting the same construct over the whole program
+	all := 0
+	for _, f := range c.P.AllFuncs {
+		if !inProd(f) {
+			continue
+		}
+		ir.EachInstr(f, func(in ssa.Instruction) {
+			if ta, ok := in.(*ssa.TypeAssert); ok && !ta.CommaOk && ta.Pos().IsValid() {
+				all++
+			}
+		})
+	}
+	if all < 10 {
+		c.Undecided("C37e: only %d single-result type assertions recognised in the whole program (expected >= 10): the recogniser is broken", all)
+	}
+	c.Note("C37e/summary", "-", itoa(n)+" single-result type assertions under block processing ("+itoa(all)+" in the whole program)")
+}
+
+var c37AssertAudited = map[string]string{}
